@@ -16,7 +16,8 @@ demo_dir=$(jq -r .demo_dir "$D/meta.json" | sed 's#^/tmp/wt/[^/]*/##; s#^\./##')
 tests=$(grep -ho 'func Test[A-Za-z0-9_]*' "$D"/demo_test.go | sed 's/func //' | paste -sd'|')
 # meta.json may name environment settings the demonstration needs (e.g. "GOARCH=386")
 demo_env=$(jq -r '.demo_env // ""' "$D/meta.json")
-run_demo() { cp "$D/demo_test.go" "$1/$demo_dir/zz_seed_demo_test.go"; (cd "$1" && env $demo_env GOFLAGS= go test -vet=off -count=1 -run "^($tests)\$" "./$demo_dir/" > "$W/demo.log" 2>&1); rc=$?; rm -f "$1/$demo_dir/zz_seed_demo_test.go"; return $rc; }
+demo_flags=$(jq -r '.demo_flags // ""' "$D/meta.json")   # e.g. "-race"
+run_demo() { cp "$D/demo_test.go" "$1/$demo_dir/zz_seed_demo_test.go"; (cd "$1" && env $demo_env GOFLAGS= go test $demo_flags -vet=off -count=1 -run "^($tests)\$" "./$demo_dir/" > "$W/demo.log" 2>&1); rc=$?; rm -f "$1/$demo_dir/zz_seed_demo_test.go"; return $rc; }
 run_demo "$W/clean" && clean=pass || clean=FAIL
 (cd "$W/mut" && GOFLAGS= go build ./... 2>"$W/build.log") || { echo "SEED $(basename $D): patched tree does not compile"; cat "$W/build.log"; exit 2; }
 run_demo "$W/mut" && mut=PASS || mut=fail
